@@ -1,5 +1,8 @@
 import GPVerif.Model.ELBO
 import GPVerif.Model.Proto
+import GPVerif.Gen.NaturalGrad
+import GPVerif.Gen.NaturalForward
+import GPVerif.Gen.StrategyEnv
 open DMat Variational ELBO
 
 /-! Line protocol for C15 (same conventions as drivers/C14.lean; interactive, flushed per line). -/
@@ -106,11 +109,67 @@ def doS : P String := do
   let Pm ← popMat a b; let G ← popMat a b; let lr ← popRat; let N ← popRat
   pure <| reply [sh (ngdStepMat Pm G lr N)]
 
+/-- generated `_NaturalToMuVarSqrt._backward`: `NB M gMu gL mu L C` -/
+def doNB : P String := do
+  let M ← popNat
+  let gMu ← popMat M 1; let gL ← popMat M M; let mu ← popMat M 1; let L ← popMat M M; let C ← popMat M M
+  let (o1, o2) := Gen.NaturalGrad.naturalBackward gMu gL mu L C
+  pure <| reply [sh o1, sh o2]
+
+/-- the theorem's upstream pair and what the generated `_backward` makes of it:
+`NBT M n Lk Kzx r s N eta1 eta2 mu L` — `(b, A) = lossGradExpectation`, upstream `(b + 2Aμ, 2AL)`, `C = L⁻¹` exact;
+replies `gMu gL out1 out2 b A` (theorem `natural_backward_elbo_gradient`: `out = (b, A)`). -/
+def doNBT : P String := do
+  let M ← popNat; let n ← popNat
+  let Lk ← popMat M M; let Kzx ← popMat M n; let r ← popMat n 1; let s ← popRat; let N ← popRat
+  let e1 ← popMat M 1; let e2 ← popMat M M; let mu ← popMat M 1; let L ← popMat M M
+  match inv? Lk, inv? L with
+  | some Li, some C =>
+    let (b, A) := lossGradExpectation (Li.mul Kzx) r s N e1 e2
+    let gMu := b.add ((A.mul mu).smul 2)
+    let gL := (A.mul L).smul 2
+    let (o1, o2) := Gen.NaturalGrad.naturalBackward gMu gL mu L C
+    pure <| reply [sh gMu, sh gL, sh o1, sh o2, sh b, sh A]
+  | _, _ => pure "fail singular"
+
+def maxAbs {r c : Nat} (A : DMat r c Rat) : Rat :=
+  (A.toRows.map fun row => (row.map fun v => if v < 0 then -v else v).foldl max 0).foldl max 0
+
+/-- generated `_NaturalToMuVarSqrt._forward` / `NaturalVariationalDistribution.forward`: `NF M eta1 eta2 Linv Lc` with
+the two Cholesky factors supplied by the harness (`Linv ≈ chol(−2η₂)`, `Lc ≈ chol(S)`), the triangular inverse exact;
+replies `mu L cov |Linv Linvᵀ − (−2η₂)| |Lc Lcᵀ − S|` (contract residuals of the supplied factors). -/
+def doNF : P String := do
+  let M ← popNat
+  let e1 ← popMat M 1; let e2 ← popMat M M; let Linv ← popMat M M; let Lc ← popMat M M
+  let arg1 := e2.smul (-2)
+  let chol : DMat M M Rat → DMat M M Rat := fun X => if X.toRows == arg1.toRows then Linv else Lc
+  let triInv : DMat M M Rat → DMat M M Rat := fun X => (inv? X).getD X
+  match inv? Linv with
+  | some Lp =>
+    let (mu, L) := Gen.NaturalForward.naturalForward chol triInv e1 e2
+    let (_, cov) := Gen.NaturalForward.distForward chol triInv e1 e2
+    let S := Lp.transpose.mul Lp
+    pure <| reply [sh mu, sh L, sh cov, shS (maxAbs ((Linv.mul Linv.transpose).sub arg1)),
+      shS (maxAbs ((Lc.mul Lc.transpose).sub S)),
+      shS (if Gen.NaturalForward.savedAreOutputs && Gen.NaturalForward.backwardReadsSaved then 1 else 0)]
+  | none => pure "fail singular"
+
+/-- generated jitter resolution: `J <ctor: none | rational> <assigned: none | rational> settingAtCtor settingAtUse`
+replies the jitter a float64 evaluation uses, and the memo-discipline fact -/
+def doJ : P String := do
+  let c ← popStr; let a ← popStr; let sc ← popRat; let su ← popRat
+  let ctor : Option Rat := if c = "none" then none else Proto.parseRat? c
+  let stored0 := Gen.StrategyEnv.storedJitter ctor sc
+  let stored := if a = "none" then stored0 else
+    match Proto.parseRat? a with | some v => Gen.StrategyEnv.jitterSetter v | none => stored0
+  pure <| reply [shS (Gen.StrategyEnv.jitterVal stored su), shS (if Gen.StrategyEnv.trainingCallClearsMemo then 1 else 0)]
+
 def step (line : String) : String :=
   match Proto.tokens line with
   | kind :: rest =>
     let p : Option (P String) := match kind with
-      | "E" => some doE | "C" => some doC | "OPT" => some doOPT | "G" => some doG | "S" => some doS | _ => none
+      | "E" => some doE | "C" => some doC | "OPT" => some doOPT | "G" => some doG | "S" => some doS
+      | "NB" => some doNB | "NBT" => some doNBT | "NF" => some doNF | "J" => some doJ | _ => none
     match p with
     | some p => match p.run rest with
       | some (s, []) => s
